@@ -150,6 +150,7 @@ def C13(ctx):
     RO.check_grow_then_read_arg(ctx, u, ["frg::vector", "frg::small_vector"])
     RO.check_built_into_kept_storage(ctx, u, ["frg::vector", "frg::small_vector"])
     RO.check_raw_storage_moves(ctx, u, ["frg::small_vector"])
+    RO.check_swap_targets(ctx, u, ["frg::small_vector"])
     RW.check_countdowns(ctx, u, ["frg::vector", "frg::small_vector", "frg::dyn_array"])
     return ("Structural clauses of C13: emptiness polarity, front/back subscripts, swap completeness, relocation ranges "
             "in growth, forwarded arguments consumed once, intrusive list link protocol. Not decided: equality with a "
@@ -171,6 +172,7 @@ def C16(ctx):
     RO.check_owner_specials(ctx, ust, ["frg::basic_string"], rule="O2.owner-specials")
     RO.check_owner_specials(ctx, uo, ["frg::unique_memory"], rule="O2.owner-specials")
     RO.check_owner_specials(ctx, ur, ["frg::rcu_radixtree"], rule="O2.owner-specials")
+    RR.check_parent_matches_link(ctx, ur)
     RO.check_size_agreement(ctx, us, ["frg::small_vector", "frg::dyn_array"])
     RO.check_size_agreement(ctx, uh, ["frg::hash_map"], rule="O3.size-agreement")
     RO.check_destroy_before_free(ctx, us, SEQ_OWNERS)
@@ -178,6 +180,7 @@ def C16(ctx):
     RO.check_allocator_stable(ctx, uo, ["frg::unique_ptr"])
     RO.check_move_assign_releases(ctx, uo, ["frg::unique_ptr"])
     RO.check_detach_before_destroy(ctx, uo, ["frg::unique_ptr"])
+    RO.check_grow_then_read_arg(ctx, uo, ["frg::unique_ptr"], rule="O.arg-survives-growth")
     ctx.rule("R.forward-once", "an argument forwarded as an rvalue is consumed at most once per activation: never inside a loop body", 1)
     RO.check_forward_once_fns(ctx, us, {"frg::construct_n"})
     RO.check_relocation(ctx, us, ["frg::vector", "frg::small_vector"])
@@ -188,6 +191,7 @@ def C16(ctx):
     RO.check_grow_then_read_arg(ctx, us, ["frg::vector", "frg::small_vector"])
     RO.check_built_into_kept_storage(ctx, us, ["frg::vector", "frg::small_vector"])
     RO.check_raw_storage_moves(ctx, us, ["frg::small_vector"])
+    RO.check_swap_targets(ctx, us, ["frg::small_vector"])
     RHO.check_holders(ctx, uo, HOLDERS)
     RHO.check_holder_specials(ctx, uo, HOLDERS)
     RR.check_radix_dtor(ctx, ur)
@@ -309,6 +313,7 @@ def C19(ctx):
     RP.check_sized_text(ctx, uf)
     RP.check_field_layout(ctx, uf)
     RP.check_directive_state(ctx, uf)
+    RP.check_strnlen_bounded(ctx, uf)
     RW.check_widths(ctx, uf, ["frg::"])
     ctx.rule("B6.fmt-width-range", "the {}-spec parser rejects a width before the step that would overflow it (so an "
              "out-of-range width makes the spec malformed and it is echoed unchanged)", 1)
